@@ -56,6 +56,16 @@ CHECKS.update({
         note="A process boundary is a fresh cache object on the same directory (the class keeps nothing in memory); a crash during the store is simulated by writing half of the archive and aborting; concurrent readers/writers are explored in the model only. The store is written in place (the model's AtomicPut = FALSE): safety relies on an unreadable archive being a miss.", design="4/C15"),
 })
 
+
+CHECKS.update({
+    "C12": dict(technique="TLC model checking of spec/Runtime.tla (reachable global states x requests, shortest history each) + execution of every TLC history in one real process (bit-identical repeats, fresh-subprocess references, projected global state) + TLC trace validation of the runtime hook events (spec/TraceRuntime.tla)",
+        text="Runtime.tla models config.NUM_THREADS, numba's thread count, the compiled-kernel table, the FFT-manager singleton and pyfftw's thread setting, with a solve split into the code's sub-steps (source FFT, thread set-up, kernel selection, final FFT). TLC checks Pure (what a solve computes depends only on the request and the thread setting; every FFT runs single-threaded), ManagerSingleAfterSolve, KernelMatchesSetting on all histories up to 4 (6 thorough) operations over 8 requests, thread counts 1/2/4/8 and manager resets, and emits a shortest history per reachable (state, request). Each history is executed from a process state reset to a fresh process's: every result bit-identical to the first in-process result of that request under the same kernel variant and within 1e-12 (double) / 1e-5 (single) of the same request in a fresh subprocess; a random history of 150 (1500) operations follows; single vs double within 1e-5 of the maximum; all recorded events validated against the specification's sub-steps including the logged thread counts.",
+        note="In-process reset clears the kernel table and the manager (what a fresh process has); numba's thread count is compared only after the package has set it; the FFTW plan cache and wisdom file are not modelled (their effect would show as a result difference, which is compared).", design="4/C12"),
+    "C14": dict(technique="TLC model checking of spec/Drivers.tla (all interleavings of take/init/solve/finish across workers) + real driver runs for every enumerated shape with delay-steered completion orders, every field compared with run_bldfm_single + TLC trace validation of the events of all processes (spec/TraceDrivers.tla)",
+        text="Drivers.tla models pool.map over forked workers: an idle worker takes the next unstarted task, resets the inherited thread/FFT state, solves, the result lands at the task's position, and the positional list is re-assembled per strategy. TLC explores every interleaving for towers 1..2 x steps 1..2 x workers 1..3 (3x3x4 thorough, 3.5M states) x 3 strategies x parent threads 1/4 and checks KeysInConfigOrder, OnePerStep, EachIsSingle, EveryTaskOnce, InitBeforeSolve; three negative controls (completion-order collection, wrong slice stride, no worker reset) must be violated (thorough). Every shape is run on the real drivers (parallel with TLC completion orders and random delays, more workers than tasks, serial timeseries/multitower, parent with 4 threads, cache on with a directory pre-populated by runs with other levels/grid and repeated met conditions) and every entry is compared field by field, bit-identically, with run_bldfm_single; the per-process event sequences of every parallel run must interleave into a behaviour of the specification.",
+        note="Schedules are steered by sleeps, not controlled; the oracle does not depend on the schedule. Grouping of worker events into runs uses the append order of the trace file (the parent writes parallel_begin before forking and parallel_end after joining). A user-supplied surface flux is documented not to reach workers.", design="4/C14"),
+})
+
 NOT_APPLICABLE = {
     "C01": "asymptotic numerical accuracy against an ODE boundary-value solution: no discrete state/transition content for a TLA+ model; needs a numerical differential oracle (different technique)",
     "C09": "real-valued identities of transcendental similarity formulas and floating-point arange rounding; nothing for TLC (integers only) to enumerate",
